@@ -107,6 +107,7 @@ PLANS = {
             S("c18_ids", 400, 12000),
             S("c18_idmap", 500, 15000, label="model"),
             S("c18_idmap", 300, 9000, label="allocfault", idfault=1),
+            S("c18_parked", 800, 24000),   # FIFO across parked asynchronous senders (scenarios/c18b_parked.cc)
         ],
         "assumptions": [
             "fifo_seq: a send or receive that times out (2 ms) after sim_quiesce is taken as 'queue full' / 'nothing "
@@ -249,6 +250,7 @@ PLANS = {
             S("c15_nonblock", 1500, 30000),
             S("c15_conc", 1500, 30000, label="avoid_known", avoid=130),
             S("c15_conc", 400, 8000),
+            S("c15_pipelined", 800, 24000),  # REP against a raw REQ peer that pipelines requests and reads no replies (scenarios/c15b_pipelined.cc)
         ],
         "assumptions": ["'library quiescent' is realised by sim_quiesce (no runnable thread, nothing in flight, no timer due within 3 ms)",
                         "clause (e) 'does the work when it can' is asserted only in states where the message-accounting model is exact "
